@@ -39,15 +39,34 @@ def jaxpr_fingerprint(closed):
     return str(closed.jaxpr), consts
 
 
-def run_ir(R, name):
-    """effects, callbacks, determinism of the trace across instances and histories, arguments untouched"""
-    env = configs.make(name)
+def run_ir(R, name, over=None):
+    """effects, callbacks, determinism of the trace across instances and histories, arguments untouched.
+    over: constructor overrides of a non-default variant (reward function, observer, normalisation flags ...) built through the harness
+    table, so that the variant's own code is traced too"""
+    def build():
+        if over:
+            from envs import base as hb
+            return hb.get(name, **over).env
+        return configs.make(name)
+    env = build()
     key = jax.random.PRNGKey(0)
-    st_shape, _ = jax.eval_shape(env.reset, key)
     a0 = env.action_spec.generate_value()
-    R.bound(config=name, facts="hold for every input (properties of the traced program)")
-    j_step = jax.make_jaxpr(env.step)(st_shape, a0)
-    j_reset = jax.make_jaxpr(env.reset)(key)
+    R.bound(config=name, overrides=str(over or {}), facts="hold for every input (properties of the traced program)")
+    try:
+        st_shape, _ = jax.eval_shape(env.reset, key)
+        j_step = jax.make_jaxpr(env.step)(st_shape, a0)
+        j_reset = jax.make_jaxpr(env.reset)(key)
+    except Exception as e:  # noqa  (python control flow / float() / bool() on a traced value: works eagerly, fails under jit, vmap and scan)
+        eager_ok = True
+        try:
+            s_, _ = env.reset(key)
+            env.step(s_, a0)
+        except Exception:  # noqa
+            eager_ok = False
+        R.validated += 1
+        R.structural("reset/step can be traced: jit, vmap and scan of them are defined (and then equal per-call execution)", False,
+                     {"config": name, "overrides": str(over or {}), "error": f"{type(e).__name__}: {str(e)[:300]}", "eager_call_works": eager_ok})
+        return
     for nm, j in (("step", j_step), ("reset", j_reset)):
         bad = []
         walk(j.jaxpr, lambda e: bad.append(e.primitive.name) if any(b in e.primitive.name for b in BAD_PRIMS) else None)
@@ -66,7 +85,7 @@ def run_ir(R, name):
     _ = env.observation_spec, env.action_spec
     j_step2 = jax.make_jaxpr(env.step)(st_shape, a0)
     j_reset2 = jax.make_jaxpr(env.reset)(key)
-    env3 = configs.make(name)
+    env3 = build()
     j_step3 = jax.make_jaxpr(env3.step)(st_shape, a0)
     j_reset3 = jax.make_jaxpr(env3.reset)(key)
     for nm, a, b, c in (("step", j_step, j_step2, j_step3), ("reset", j_reset, j_reset2, j_reset3)):
@@ -280,6 +299,16 @@ def jobs(tier, seed):
     js = [(f"{n}/ir", "checks.C02", "run_ir", {"name": n}) for n in configs.ALL]
     # the other generators shipped with the environments (toy / csv / random-walk), whose reset path is different code
     js += [(f"{n}/ir", "checks.C02", "run_ir", {"name": n}) for n in ("Maze@toy", "BinPack@toy", "BinPack@csv", "ConnectorRW", "Sokoban@toy", "PacMan@9x7")]
+    # non-default variants shipped with the environments (other reward functions, observers, flags): their code is only reached through
+    # constructor arguments, so the default configurations never trace it
+    from envs import base as hb
+    for hname in hb.available():
+        cls = hb.cls_of(hname)
+        seen = []
+        for over in list(getattr(cls, "REWARD_VARIANTS", [])) + list(getattr(cls, "OBS_VARIANTS", [])):
+            if over and str(over) not in seen and not any(str(k).startswith("steps") or k == "reward" for k in over):
+                seen.append(str(over))
+                js.append((f"{cls.QUICK[0]}#variant{len(seen)}/ir", "checks.C02", "run_ir", {"name": cls.QUICK[0], "over": over}))
     js.append(("constructor-arguments", "checks.C02", "run_ctor_args", {}))
     for n in TRANSFORM_ENVS + (THOROUGH_EXTRA if tier == "thorough" else []):
         js.append((f"{n}/vmap2-scan2", "checks.C02", "run_transform", {"name": n, "B": 2, "L": 2}))
